@@ -2,7 +2,7 @@ import props as _props
 from locks_gen import regen_locks
 
 PROP = {
-    "coq": ["C10", "C10b"],
+    "coq": ["C10", "C10b", "C10c"],
     "pre": [regen_locks],
     "extra": [_props.race_detector_run("C10")],
     "exhaustive": False,
@@ -10,6 +10,7 @@ PROP = {
             "Stop (and Stop;Start), requests, disconnects, held removals; after every step the started flag, active-list length and "
             "probe outcomes (a request after Stop must find the connection closed; a connection accepted during Stop must be refused; "
             "Start after Stop serves on the same address) are compared with the transition system."
+            " Scenario lifeblock: the same kind of traces on a server bound to a fixed address which the harness occupies with a foreign listener while the server is stopped (K) and releases (U): Start while the address is occupied must return an error and leave the server stopped (started flag, active list, live accept goroutines), Stop afterwards must not panic nor fail, a stopped server must refuse a dial, and Start after the release must serve again on that address (model: Model/Lifeblock.v, theorems C10c)."
             " The lock-skeleton extractor tracks local aliases of shared slice/map fields (a copy of the slice header used after Unlock is an access to the field outside the lock).",
     "assumptions": ["goroutine liveness after Stop and data-race freedom are runtime facts: see level note"],
 }
